@@ -101,6 +101,7 @@ def plan(tier, seed):
 # ---------------------------------------------------------------------------
 # worker side
 # ---------------------------------------------------------------------------
+KNOWN_REJECTION = "Reverse-mode differentiation does not work for lax.while_loop"
 _W = {}
 _MEMO = {}  # (kind, chain, seed) -> evaluation record
 _CONTROL = {}  # (chain, seed) -> None (valid) | str (why JAX rejects it)
@@ -190,15 +191,14 @@ def _control(chain, seed):
         x = _x0(seed)
         r = _guard(lambda: c(x))
         if r[0] != "value":
-            _CONTROL[k] = f"{r[0]}: {r[1]}"
+            why = f"{r[0]}: {r[1]}"
+            # the only rejection JAX has for these constructs; anything else is
+            # a mistake in the harness's own wrappers and must not be absorbed
+            if not ("while" in chain and any(a in chain for a in ("grad", "value_and_grad")) and KNOWN_REJECTION in why):
+                raise AssertionError(f"harness: control chain {P.show(chain)} fails: {why}")
+            _CONTROL[k] = why
         else:
-            rj = _guard(lambda: jax.jit(c)(x))
-            if rj[0] != "value":
-                _CONTROL[k] = f"under jit {rj[0]}: {rj[1]}"
-            elif not _close(r[1], rj[1]):
-                raise AssertionError(f"harness: control chain {chain} eager {r[1]} != jit {rj[1]}")
-            else:
-                _CONTROL[k] = None
+            _CONTROL[k] = None
     return _CONTROL[k]
 
 
@@ -287,6 +287,11 @@ def evaluate(kind, chain, seed):
         j = jax.jit(sf)
         sj = _guard(lambda: j(keys[0], x))
         if sj[0] != "value":
+            if sj[0] != "dedicated":
+                # attribute it: the deterministic stand-in must survive jit(seed(.))
+                c = P.build("control", chain)
+                cj = _guard(lambda: jax.jit(_W["seed"](c))(keys[0], x))
+                leg["control_jit_seed"] = cj[0]
             flags.append("jit-raises:" + (sj[1] if sj[0] == "dedicated" else sj[0][6:]))
             leg["jit_msg"] = sj[1]
             runner, first = sf, s[1]
